@@ -1450,3 +1450,105 @@ pub fn check_c01(hdr: &InHeader, res: &crate::Result<usize>, wellformed: bool, w
         }
     }
 }
+
+// ---------------------------------------------------------------- async twin of the scripted filesystem (C20)
+#[cfg(feature = "async-io")]
+mod async_fs {
+    use super::*;
+    use crate::api::filesystem::{AsyncFileSystem, AsyncZeroCopyReader, AsyncZeroCopyWriter};
+    use async_trait::async_trait;
+
+    /// Every async operation answers and records exactly like its synchronous twin (same SCRIPT,
+    /// same LOG), so any difference observed by the C20 harnesses comes from the server.
+    #[async_trait]
+    impl AsyncFileSystem for SymFs {
+        async fn async_lookup(&self, ctx: &Context, parent: u64, name: &CStr) -> io::Result<Entry> {
+            self.lookup(ctx, parent, name)
+        }
+        async fn async_getattr(&self, ctx: &Context, inode: u64, handle: Option<u64>) -> io::Result<(stat64, Duration)> {
+            self.getattr(ctx, inode, handle)
+        }
+        async fn async_setattr(&self, ctx: &Context, inode: u64, attr: stat64, handle: Option<u64>, valid: SetattrValid) -> io::Result<(stat64, Duration)> {
+            self.setattr(ctx, inode, attr, handle, valid)
+        }
+        async fn async_open(&self, ctx: &Context, inode: u64, flags: u32, fuse_flags: u32) -> io::Result<(Option<u64>, OpenOptions)> {
+            self.open(ctx, inode, flags, fuse_flags).map(|(h, o, _)| (h, o))
+        }
+        async fn async_create(&self, ctx: &Context, parent: u64, name: &CStr, args: CreateIn) -> io::Result<(Entry, Option<u64>, OpenOptions)> {
+            self.create(ctx, parent, name, args).map(|(e, h, o, _)| (e, h, o))
+        }
+        async fn async_read(
+            &self,
+            ctx: &Context,
+            inode: u64,
+            handle: u64,
+            w: &mut (dyn AsyncZeroCopyWriter + Send),
+            size: u32,
+            offset: u64,
+            lock_owner: Option<u64>,
+            flags: u32,
+        ) -> io::Result<usize> {
+            rec(M_READ, ctx, inode);
+            rec_fh(Some(handle));
+            rec_opt(lock_owner);
+            unsafe {
+                LOG.a[0] = size as u64;
+                LOG.a[1] = offset;
+                LOG.a[2] = flags as u64;
+                LOG.a[3] = w.available_bytes() as u64;
+            }
+            if let Some(e) = fail() {
+                return Err(e);
+            }
+            let n = kn_bytes_len();
+            if n > 0 && (size as usize) >= n && w.available_bytes() >= n {
+                let done = w.write(&kn_bytes()[..n])?;
+                unsafe { LOG.a[4] = done as u64 };
+                Ok(done)
+            } else {
+                unsafe { LOG.a[4] = 0 };
+                Ok(0)
+            }
+        }
+        async fn async_write(
+            &self,
+            ctx: &Context,
+            inode: u64,
+            handle: u64,
+            r: &mut (dyn AsyncZeroCopyReader + Send),
+            size: u32,
+            offset: u64,
+            lock_owner: Option<u64>,
+            delayed_write: bool,
+            flags: u32,
+            fuse_flags: u32,
+        ) -> io::Result<usize> {
+            rec(M_WRITE, ctx, inode);
+            rec_fh(Some(handle));
+            rec_opt(lock_owner);
+            unsafe {
+                LOG.a[0] = size as u64;
+                LOG.a[1] = offset;
+                LOG.a[2] = flags as u64;
+                LOG.a[3] = fuse_flags as u64;
+                LOG.b[0] = delayed_write;
+            }
+            let mut tmp = [0u8; NB];
+            let got = r.read(&mut tmp)?;
+            rec_data(&tmp[..got]);
+            if let Some(e) = fail() {
+                return Err(e);
+            }
+            Ok(script().count)
+        }
+        async fn async_fsync(&self, ctx: &Context, inode: u64, datasync: bool, handle: u64) -> io::Result<()> {
+            self.fsync(ctx, inode, datasync, handle)
+        }
+        async fn async_fallocate(&self, ctx: &Context, inode: u64, handle: u64, mode: u32, offset: u64, length: u64) -> io::Result<()> {
+            self.fallocate(ctx, inode, handle, mode, offset, length)
+        }
+        async fn async_fsyncdir(&self, ctx: &Context, inode: u64, datasync: bool, handle: u64) -> io::Result<()> {
+            self.fsyncdir(ctx, inode, datasync, handle)
+        }
+    }
+}
